@@ -83,7 +83,7 @@ def instances(tier):
             out.append(dict(id="aux-%s" % cls.__name__, kind="aux", cls=cls.__name__, pmax=min(p, 10 if not quick else 7), budget=b))
             out.append(dict(id="warm-%s" % cls.__name__, kind="warm", cls=cls.__name__, pmax=min(p, 3 if quick else 5), budget=b))
     out.append(dict(id="simplifying-RadauIIA19", kind="simplifying", cls="RadauIIA19", budget=b))
-    bases = ["EulerSolver", "MidpointSolver", "RK4Solver", "SymplecticEulerSolver"] if quick else \
+    bases = ["EulerSolver", "MidpointSolver", "RK4Solver", "SymplecticEulerSolver", "ImplicitMidpoint"] if quick else \
         ["EulerSolver", "MidpointSolver", "RK4Solver", "DOPRI45", "ImplicitMidpoint", "SymplecticEulerSolver"]
     for bn in bases:
         for L in ([2, 3, 4] if quick else [2, 3, 4, 5]):
@@ -449,6 +449,11 @@ def _richardson(c, inst, t, h):
                 def go():
                     dt = np.dtype(object) if c.symbolic else np.dtype(np.float64)
                     integ = RI((dim,), dtype=dt, rtol=1e-6, atol=1e-6)
+                    # the sub-steps are taken by the wrapped method as the caller configured it: in particular an implicit basis solves
+                    # its stage equations to the caller's tolerance (the order of the wrapper rests on accurately solved sub-steps)
+                    c.check("c01.richardson.basis_integrators_use_the_callers_tolerances",
+                            all(float(bi.rtol) == 1e-6 and float(bi.atol) == 1e-6 for bi in integ.basis_integrators),
+                            info=dict(tols=[(float(bi.rtol), float(bi.atol)) for bi in integ.basis_integrators]))
                     for bi in integ.basis_integrators:
                         bi.update_timestep = ctrl_stub(c, bi, fixed=1.0)
                     y0 = c.array([0] * dim) if c.symbolic else np.zeros(dim)
